@@ -21,6 +21,7 @@ type BankKnobs struct {
 	PCallback  int
 	PInfo      int
 	PInfoShare int
+	PFaultKind int
 	PFault     int
 	PPanic     int
 	PRepeat    int // allow a second instance of an already used entry (same code pointer)
@@ -171,6 +172,10 @@ func (g *bankGen) decorate(f *Fn) {
 			} else {
 				f.Faults = append(f.Faults, FaultOK)
 			}
+		}
+		if g.pct(g.bk.PFaultKind, "faultkind") {
+			f.EK = g.pick(2, "ek")
+			f.PK = g.pick(5, "pk")
 		}
 	}
 	if g.pct(g.bk.PDur, "dur?") {
